@@ -385,6 +385,35 @@ func (c *codecCtx) decCase(mi *msgInfo, b []byte, merge, discard bool, init *V) 
 	return res, q
 }
 
+// nilMessage: Size / Marshal / MarshalAppend / ProtoMethods().Marshal with a prefix on (*T)(nil): no bytes, prefix kept
+func (c *codecCtx) nilMessage(mi *msgInfo) {
+	o, si := c.o, c.si
+	id := si.id + "." + string(mi.md.Name())
+	key := "codec-nil/" + id
+	nilMsg := reflect.Zero(reflect.PointerTo(mi.goType)).Interface().(proto.Message)
+	var pan interface{}
+	func() {
+		defer func() { pan = recover() }()
+		o.withKey(key).prop("C09", proto.Size(nilMsg) == 0, id+": Size of the typed nil message is not 0")
+		b, err := proto.Marshal(nilMsg)
+		o.withKey(key).prop("C09", err == nil && len(b) == 0, fmt.Sprintf("%s: Marshal of the typed nil message gives %s %v", id, hx(b), err))
+		for _, pre := range [][]byte{nil, {}, []byte("already-framed"), append(make([]byte, 0, 64), 0x18, 0x07)} {
+			orig := append([]byte{}, pre...)
+			for _, det := range []bool{false, true} {
+				out, err := proto.MarshalOptions{Deterministic: det}.MarshalAppend(pre, nilMsg)
+				o.withKey(key).prop("C09", err == nil && bytes.Equal(out, orig), fmt.Sprintf("%s: MarshalAppend(%s, typed nil) = %s %v, want the prefix unchanged", id, hx(orig), hx(out), err))
+				o.withKey(key).prop("C04", err == nil && bytes.Equal(out, orig), fmt.Sprintf("%s: MarshalAppend(%s, typed nil) = %s %v, want the prefix unchanged", id, hx(orig), hx(out), err))
+			}
+			if m := nilMsg.ProtoReflect().ProtoMethods(); m != nil && m.Marshal != nil {
+				mo, err := m.Marshal(protoiface.MarshalInput{Message: nilMsg.ProtoReflect(), Buf: append([]byte{}, orig...)})
+				o.withKey(key).prop("C09", err == nil && bytes.Equal(mo.Buf, orig), fmt.Sprintf("%s: ProtoMethods().Marshal with Buf %s on the typed nil message returns %s", id, hx(orig), hx(mo.Buf)))
+			}
+		}
+	}()
+	o.withKey(key).prop("C09", pan == nil, fmt.Sprintf("%s: a read-only codec call on the typed nil message panics: %v", id, pan))
+	o.count("nil_message")
+}
+
 func engineCodec(cfg config, o *out) {
 	schemas := loadSchemas()
 	o.hist["programs"] = len(schemas)
@@ -395,6 +424,16 @@ func engineCodec(cfg config, o *out) {
 		for _, mi := range si.roots() {
 			// empty message
 			c.one(mi, si.emptyV(mi), "empty")
+			// messages that hold nothing but unknown fields (one and several records)
+			for k := 1; k <= 2; k++ {
+				v := si.emptyV(mi)
+				for j := 0; j < k; j++ {
+					v.Unk = append(v.Unk, genUnknownFor(c.r, mi)...)
+				}
+				c.one(mi, v, "unknown-only")
+			}
+			// the typed nil message is an empty read-only message for every read-only codec call, append mode included
+			c.nilMessage(mi)
 			// one-hot: each field alone, each boundary value
 			for i, fi := range mi.fields {
 				fd := fi.fd
